@@ -164,6 +164,28 @@ def _read_map_fits(healsparse_class, filename, nside_coverage=None, pixels=None,
         raise RuntimeError("Filename %s not in healpix or healsparse format." % (filename))
 
 
+def _uniq_order(uniq):
+    """
+    Order of NUNIQ-encoded cells, uniq = 4*4**order + index.
+
+    Parameters
+    ----------
+    uniq : `np.ndarray`
+        Integer array of NUNIQ values.
+
+    Returns
+    -------
+    order : `np.ndarray`
+        Integer (int64) array of orders.
+    """
+    quarter = np.asarray(uniq, dtype=np.int64)//4
+    order = np.floor(np.log2(quarter)).astype(np.int64)//2
+    # The logarithm is computed in floating point: just below a power of four
+    # (the last pixels of the sphere from order 24 on) it rounds up.
+    order[np.left_shift(np.int64(1), 2*order) > quarter] -= 1
+    return order
+
+
 def _read_moc_fits(healsparse_class, filename, nside_coverage):
     """Read a MOC fits file.  Only supports V1 now.
 
@@ -182,7 +204,7 @@ def _read_moc_fits(healsparse_class, filename, nside_coverage):
     with HealSparseFits(filename) as fits:
         data = fits.read_ext_data(1)
 
-    order = np.floor(np.log2(data['UNIQ']//4)).astype(np.int64)//2
+    order = _uniq_order(data['UNIQ'])
     index = data['UNIQ'] - 4*(4**order)
 
     max_order = np.max(order)
@@ -684,7 +706,7 @@ def _write_moc_fits(hsp_map, filename, clobber=False):
     tbl = np.zeros(uniq.size, dtype=[('UNIQ', 'i8')])
     tbl['UNIQ'][:] = uniq
 
-    order = np.log2(tbl['UNIQ']//4).astype(np.int32)//2
+    order = _uniq_order(tbl['UNIQ'])
     moc_order = np.max(order)
 
     hdu = fits.BinTableHDU(tbl)
